@@ -33,7 +33,7 @@ theorem bytes_at_declared_offset (kvs : List (Bytes × KVal)) (ts : List TIn) (f
   intro t o hmem
   have hfile : file = head ++ encData align ts head.length := by
     unfold encode at henc
-    simp only [halign, bind, Except.bind] at henc
+    simp only [writerAlignment_lenient _ _ halign, bind, Except.bind] at henc
     split at henc
     · cases henc
     · simp only [pure, Except.pure] at henc
@@ -183,6 +183,92 @@ example (f : Bytes) (h : encode false kvA1 [t4 1] = .ok f) : AlignedWritten 0 [(
     intro t ht; simp only [List.mem_singleton] at ht; subst ht
     exact ⟨⟨by decide, by decide, by decide⟩, by unfold WfT; decide⟩, rfl, by decide, h⟩⟩
   exact ⟨hw, Nat.mod_one _, hw, Nat.mod_one _, trivial⟩
+
+/-! ### finding F1c: the writer accepts a `general.alignment` its own decoder rejects
+
+  `WriteGGUF` reads the alignment with `kv.Uint("general.alignment", 32)`; `keyValue[uint32]` treats a key stored with
+  another type as missing, so the file is laid out with 32 and the key is written with its own type; a `uint32(0)` is
+  only noticed when a tensor has to be padded.  `Decode` insists on a non-zero uint32.  The guard
+  `alignmentIn kvs = .ok align` ∧ `0 < align` of the theorems above excludes exactly these inputs.  The repaired writer
+  (`encode … (strict := true)`, proposed_fixes/C05-F1c-writer-alignment.patch) refuses them. -/
+
+/-- the written bytes of a tensorless file (kernel-reducible for the witnesses: `sortKVs` of one pair) -/
+def fileOf1 (kv : Bytes × KVal) : Bytes := encHeader 0 1 ++ encKV kv
+
+/-- outcome tests usable with `decide` -/
+def okIs (x : Except Err Nat) (n : Nat) : Bool := match x with | .ok a => a == n | .error _ => false
+def errIs {α : Type} (x : Except Err α) (e : Err) : Bool := match x with | .error e' => e' == e | .ok _ => false
+
+/-- **Witness F1c (alignment stored as a string)**: the lenient writer succeeds — laying the file out with 32 — and the
+    decoder rejects what it wrote; the repaired writer refuses the input. -/
+theorem F1c_writer_accepts_what_decoder_rejects :
+    okIs (writerAlignment false [(keyAlignment, .str [97, 98, 99])]) 32 = true ∧
+    errIs (decode (fileOf1 (keyAlignment, .str [97, 98, 99])) 0 none) (.invalid "alignment type") = true ∧
+    errIs (writerAlignment true [(keyAlignment, .str [97, 98, 99])]) (.invalid "general.alignment") = true := by decide
+
+/-- **Witness F1c (alignment `uint32(0)`, no tensors)** -/
+theorem F1c_zero_alignment_without_tensors :
+    okIs (writerAlignment false [(keyAlignment, .u32 0)]) 0 = true ∧
+    errIs (decode (fileOf1 (keyAlignment, .u32 0)) 0 none) (.invalid "alignment zero") = true ∧
+    errIs (writerAlignment true [(keyAlignment, .u32 0)]) (.invalid "general.alignment") = true := by decide
+
+/-- `fileOf1` is what `encode` writes for one pair and no tensor -/
+theorem fileOf1_is_encode (kv : Bytes × KVal) (a : Nat) (h : writerAlignment false [kv] = .ok a) :
+    encode false [kv] [] = .ok (fileOf1 kv) := by
+  unfold encode
+  rw [h]
+  simp [bind, Except.bind, pure, Except.pure, encHead, fileOf1, sortKVs, encTInfos, encData, offsets]
+
+/-- **The round trip for the repaired writer: no alignment hypothesis left.**  If the strict writer produced `file`, the
+    decoder returns the `RoundTrip` value for the alignment the key/values ask for. -/
+theorem write_decode_full_repaired_writer (kvs : List (Bytes × KVal)) (ts : List TIn) (file : Bytes) (maxArraySize : Int)
+    (hnodup : (kvs.map (·.1)).Nodup)
+    (hnoparam : ∀ kv ∈ kvs, kv.1 ≠ keyParamCount)
+    (htv : ∀ kv ∈ kvs, TypedVal kv.2) (htt : ∀ t ∈ ts, TypedTensor t ∧ WfT t)
+    (henc : encode false kvs ts true = .ok file) (hlen : file.length < two63) :
+    ∃ align d, alignmentIn kvs = .ok align ∧ 0 < align ∧ decode file maxArraySize none = .ok d ∧
+      RoundTrip kvs ts file align (if maxArraySize = 0 then 1024 else maxArraySize) d := by
+  obtain ⟨align, ha, hpos, henc'⟩ := encode_strict kvs ts file henc
+  obtain ⟨d, hd, hr⟩ := OllamaVerif.Gguf.write_decode_full kvs ts file align maxArraySize hnodup hnoparam htv htt ha hpos henc' hlen
+  exact ⟨align, d, ha, hpos, hd, hr⟩
+
+/-- non-vacuity: the strict writer accepts `kvFull` (alignment 8) -/
+example : (encode false kvFull [t4 1, t4 2, t4 3] true).isOk = true := by decide
+
+/-- **create on ANY single written file** (restated from `Written`, only bound: file length): one layer, the uploaded blob itself -/
+theorem create_takes_any_written_file_whole (file : Bytes) (align : Nat) (hw : Written file align) (hlen : file.length < two63) :
+    ∃ d m, decode file 0 none = .ok d ∧ d.endOffset = file.length ∧
+      ggufLayers file = some (.ok [⟨0, file.length, true, m, d⟩]) := by
+  obtain ⟨d, hd, hend⟩ := decode_written_at file [] align 0 0 hw (Nat.zero_mod _) (by omega)
+  simp only [List.append_nil, Nat.zero_add] at hd hend
+  obtain ⟨m, hm⟩ := mediaType_all d.kvs
+  exact ⟨d, m, hd, hend, ggufLayers_single file none Guards.tree _ d m hd hend (by unfold two63 at *; omega) hm⟩
+
+/-- non-vacuity of `create_layers_of_written_files` with the DEFAULT alignment: a file whose length (96) is a multiple of
+    32 — its single F32 tensor has 8 elements — uploaded twice -/
+def t32 : TIn := ⟨[116], 0, [8], List.replicate 32 7⟩
+def file96 : Bytes := encHeader 1 0 ++ encTInfo t32 0 ++ List.replicate 7 0 ++ t32.data
+theorem file96_written : encode false [] [t32] = .ok file96 ∧ file96.length = 96 := by
+  refine ⟨?_, by decide⟩
+  have hs : sortKVs [] = [] := by simp [sortKVs]
+  have hpad : padding 57 32 = 7 := by decide
+  have hlen : (encHeader 1 0 ++ encTInfo t32 0).length = 57 := by decide
+  unfold encode writerAlignment
+  simp only [List.find?_nil, Option.map_none, bind, Except.bind, pure, Except.pure, encHead, hs, List.flatMap_nil,
+    List.length_nil, List.length_cons, List.append_nil, offsets, encTInfos, encData]
+  rw [if_neg (by decide)]
+  have h0 : (0 : Nat) + padding 0 32 = 0 := by decide
+  simp only [h0, hlen, hpad, file96, List.append_assoc]
+
+example : AlignedWritten 0 [(file96, 32), (file96, 32)] := by
+  have hw : Written file96 32 := by
+    refine ⟨⟨[], [t32], by decide, ?_, ?_, ?_, rfl, by decide, file96_written.1⟩⟩
+    · intro kv hkv; cases hkv
+    · intro kv hkv; cases hkv
+    · intro t ht
+      simp only [List.mem_singleton] at ht; subst ht
+      exact ⟨⟨by decide, by decide, by decide⟩, by unfold WfT; decide⟩
+  exact ⟨hw, by decide, hw, by rw [file96_written.2], trivial⟩
 
 /-- the decoded keys are exactly the written keys (as a set) plus the parameter count -/
 theorem decoded_keys_are_written_keys (kvs : List (Bytes × KVal)) (k : Bytes) :
